@@ -210,6 +210,14 @@ func (server *Server) ServeRequest(ctx *Context, recving *sync.Mutex, wg *sync.W
 		server.ctxPool.Put(ctx)
 		return err
 	}
+	if !ctx.upgrade.valid() {
+		// a flag combination no client sends: answer with an error instead of dispatching it
+		ctx.upgrade.Reset()
+		ctx.upgrade.NoResponse = noResponse
+		ctx.Error = "invalid upgrade"
+		server.sendResponse(ctx)
+		return nil
+	}
 	if ctx.upgrade.Heartbeat == heartbeat {
 		server.sendResponse(ctx)
 		return nil
